@@ -14,7 +14,7 @@ from bounded import base as B
 
 STANDINS = {
     'C01': [B.standin_arith_edges, B.standin_range_edges],
-    'C02': [B.standin_prec_chains],
+    'C02': [B.standin_prec_chains, B.standin_prec_operand_kinds],
     'C04': [B.standin_arith_edges, B.standin_range_edges, B.standin_fmt_edges],
     'C05': [B.standin_literals],
     'C08': [],   # covered (faster, broader) by bounded/c08.py
